@@ -441,8 +441,9 @@ package internal
 //@   property C06
 //@   requires entry != nil && entry.Data != nil                                     # name: entry-well-formed
 //@   requires storableStatus(entry.Data.StatusCode)                                 # name: status-storable
-//@   assigns storeWrites, lastSetOK, entry.Data.Body
+//@   assigns storeWrites, lastSetOK, entry.Data.Body, bodyReadFailed
 //@   ensures lastSetOK == (result == nil)                                           # ghost-update
+//@   ensures bodyReadFailed ==> result != nil && storeWrites == old(storeWrites)    # name: unreadable-body-not-written
 //@ iface ResponseCache.SetRefs(c, key, refs)
 //@   property C06
 //@   requires lastSetOK                                                             # name: entry-was-stored
@@ -455,8 +456,9 @@ package internal
 //@   requires req != nil && resp != nil && resp.Header != nil                       # name: well-formed
 //@   requires storableReq(req)                                                      # name: request-storable
 //@   requires storableResp(resp)                                                    # name: response-storable
-//@   assigns storeWrites, lastSetOK, map(resp.Header), resp.Body, elems(refs), now
+//@   assigns storeWrites, lastSetOK, bodyReadFailed, map(resp.Header), resp.Body, elems(refs), now
 //@   ensures resp.Header != nil
+//@   ensures bodyReadFailed ==> storeWrites == old(storeWrites)                     # name: nothing-written-when-body-unreadable
 
 //@ iface CacheInvalidator.InvalidateCache(ci, reqURL, respHeader, refs, key)
 //@   requires reqURL != nil
@@ -639,8 +641,9 @@ package internal
 //@   property C06 C05
 //@   nosafety
 //@   requires r.Data != nil
-//@   assigns r.Data.Body
+//@   assigns r.Data.Body, bodyReadFailed
 //@   ensures result1 != nil ==> len(result0) == 0                    # name: no-bytes-on-error
+//@   ensures bodyReadFailed ==> result1 != nil                       # name: unreadable-body-is-an-error
 //@ func (*responseCache).Set
 //@   implements ResponseCache.Set
 //@   property C06 C10
